@@ -1,5 +1,6 @@
 """Per-property check context: runs function contracts (tier P), lemmas over contracts, bounded stand-ins (tier B),
 replays counterexamples on the real code, applies the known-findings protocol and writes evidence."""
+import re
 import datetime as dt, hashlib, importlib, json, os, random, sys, time, traceback
 import z3
 from .pyvc import engine as E
@@ -205,7 +206,7 @@ class Check:
         return rep
 
     def handle_failed(self, contract, ob):
-        key = f'{contract.name}#{ob.clause}'
+        key = re.sub(r' ?@path\d+', '', f'{contract.name}#{ob.clause}')        # one violation per clause, not per path
         rec = {'obligation': ob.name, 'function': contract.target, 'clause': ob.clause, 'verifier_output': ob.record()}
         if ob.model is not None and contract.replay is not None:
             try:
